@@ -53,6 +53,7 @@ func runC19(c *Ctx) {
 			{Kind: "dist-upd", Persist: per, Sec: "g", PType: "g", Rule: G[0], New: G[0]},
 		}
 	}
+	c19UpdateFiltered(c)
 	identity := func(o EOp) bool { return o.Kind == "dist-upd" && strings.Join(o.Rule, ",") == strings.Join(o.New, ",") }
 	probes := []EOp{{Kind: "obs", Args: []string{"pol", "p", "p"}}, {Kind: "obs", Args: []string{"pol", "g", "g"}}, {Kind: "obs", Args: []string{"adapter"}}, {Kind: "obs", Args: []string{"log"}},
 		{Kind: "haslink", PType: "g", Args: []string{"alice", "admin"}}, {Kind: "haslink", PType: "g", Args: []string{"bob", "alice"}},
